@@ -358,3 +358,5 @@ ASSUMPTIONS = [
     're-populating an id emptied while its deferred-deletion mark was pending is outside the claim (as in C01)',
 ]
 OUTSIDE = ['histories longer than L', 'processors (C07)', 'callbacks that mutate the world']
+
+TECHNIQUE = 'bounded symbolic execution (symx/z3 path exploration) of operation histories with enable/disable interleavings, callback-log oracle'
